@@ -25,18 +25,25 @@ CLAIM = dict(
           'reported minimum AND maximum are the true ones" -- only the maximum-modulus one is (theorem 3); the opposite-sign optimum '
           'comes from a second beam on the squared shifted tensor of rank up to 4 (C15_rank1_minmax_refuted is a concrete exact '
           'counterexample on the model; the search replays it on the implementation). '
-          '(7) functional variant, PARTIAL (model Model/OptimaFunc.v of _find_poly_max and of the point bookkeeping of _step_top_k): '
-          'C15_func_points_in_cube_partial: all coordinates of every returned point lie in [-1,1] whatever polyroots / argsort / the '
-          'linear algebra return; C15_func_points_dim: it has exactly d coordinates when the argsort over all candidates indexes into its '
-          'argument and there is one squared interpolant per kept point; C15_func_constant_poly: a constant squared interpolant yields the candidates -1, 1 without consulting polyroots '
-          '(commit 7bc82cb). NOT proved, validated numerically only (search against a fine grid): that a rank-1 interpolant attains '
-          'its maximum modulus at the returned point; and the floating-point effects of orthogonalize / 2**(p/d) (oracles with '
-          'contracts, checked on every recorded call).'),
+          '(7) functional variant (Model/OptimaFunc.v: _find_poly_max, the point bookkeeping of _step_top_k, and the rank-1 path in full): '
+          'C15_func_cand_absmax [reals, extreme value theorem + Fermat from Coq Ranalysis]: the candidate list (end points + real roots '
+          'of the derivative in [-1,1]) carries a maximiser of |p| over [-1,1]; '
+          'C15_func_rank1_exact (cond: polyroots returns every real root in [-1,1] of the derivatives of the squared scaled factors, '
+          'both argsorts sort, k >= 1, k_loc >= 1): for a rank-1 coefficient tensor the returned point has d coordinates, lies in '
+          '[-1,1]^d and the interpolant attains its maximum modulus over the cube there (every d, every degree); '
+          'PARTIAL for general rank: C15_func_points_in_cube_partial: all coordinates of every returned point lie in [-1,1] whatever '
+          'polyroots / argsort / the linear algebra return; C15_func_points_dim: exactly d coordinates when the argsort over all '
+          'candidates indexes into its argument and there is one squared interpolant per kept point; C15_func_constant_poly: a constant '
+          'squared interpolant yields the candidates -1, 1 without consulting polyroots (commit 7bc82cb). '
+          'Validated numerically only: that the factor f_s of the rank-1 model is the Chebyshev interpolant of the orthogonalised core '
+          '(cheb2poly, computed by the harness; the polynomials (g f_s)^2 of the model are compared with those handed to '
+          '_find_poly_max on every run), completeness of numpy polyroots, and the floating-point effects of orthogonalize / 2**(p/d) '
+          '(oracles with contracts, checked on every recorded call).'),
     note=('Order arguments are at Coq reals (no NaN: the zero tensor, where numpy computes 0/0 norms, is covered by the theorems because '
           'every index is then optimal). External routines are Section variables with contracts: argsort (a permutation that sorts '
           'ascending), orthogonalize(use_stab=True) (same shape, a fixed multiple of the same tensor, rank 1 stays rank 1), 2**(p/d) '
           '(non-zero), x**(1/d) in const (d-th power gives x back), tt_to_qtt (value preservation under ind_qtt_to_tt). '
-          'Non-vacuity: C15_contracts_satisfiable, C15_example_*.'),
+          'Non-vacuity: C15_contracts_satisfiable, C15_example_* (C15_example_func_rank1: factor x^2 - 1/4 with the explicit root oracle [0, 1/2, -1/2]).'),
     technique='Coq proof (beam invariant by induction over the visited cores, order arguments at R) + '
               'model/implementation correspondence with replayed oracles + brute-force oracle on the dense tensor')
 TRUSTED = ['Coq 8.16.1 kernel; Reals axioms (Print Assumptions per theorem in the evidence)',
@@ -44,7 +51,8 @@ TRUSTED = ['Coq 8.16.1 kernel; Reals axioms (Print Assumptions per theorem in th
            'oracle contract orth_ok: orthogonalize(Y, piv, use_stab=True) keeps the shape, denotes Y / 2^p, keeps rank 1 (checked numerically on every recorded call, 1e-9)',
            'oracle contract droot_ok: (x**(1/d))**d = x inside teneva.const (float rounding; model vs implementation dense squared-shifted tensor compared at 1e-9)',
            'oracle contract qtt_ok: tt_to_qtt preserves values under the index map (C17; checked on every recorded call)',
-           'oracles of the functional variant (polyroots, both argsort calls, the squared partial interpolants) are unconstrained in the theorem and replayed in the correspondence',
+           'oracle contract roots_ok_on (rank-1 functional theorem): polyroots + the 1e-4 imaginary filter return every real root in [-1,1] of a polynomial that is not identically zero (not checkable exactly; the search compares the result with a fine grid)',
+           'oracles of the functional variant for general rank (polyroots, both argsort calls, the squared partial interpolants) are unconstrained in the partial theorems and replayed in the correspondence',
            'hand-written models Model/Optima.v, Model/OptimaFunc.v tied to /repo by the correspondence streams of this check on every run',
            'floating point: theorems are over exact reals; ties within rounding error are excluded from the correspondence by a 1e-6 margin filter']
 TIME_LIMIT = {'quick': 900, 'thorough': 5400}
@@ -76,6 +84,17 @@ Definition showFn rts as1 as2 (polys : list (list (list float))) (d k kl : nat) 
   ([], map (map F_show) (optima_func_all OF rts as1 as2 (fun s => nth s polys []) d k kl) ++ [[]] ++
        concat (map (fun s => map (fun i => map F_show (fvals rts s i (nth i (nth s polys []) [])))
                                  (seq 0 (length (nth s polys [])))) (seq 0 d))).
+Fixpoint r1_trace (rts : nat -> nat -> list float -> list float) as1 as2 (s : nat) (fs : list (list float))
+    (kept : list (list float * float)) (k kl : nat) : list (list float) :=
+  match fs with
+  | [] => []
+  | f :: fs' => map (fun e => sq_poly_r1 OF (snd e) f) kept ++
+                r1_trace rts as1 as2 (S s) fs' (func_step_r1 OF rts as1 as2 s f kept k kl) k kl
+  end.
+(* points of the rank-1 model, an empty row, then the polynomials (g f_s)^2 it hands to _find_poly_max, in call order *)
+Definition showR1 rts as1 as2 (fs : list (list float)) (k kl : nat) : OUT :=
+  ([], map (map F_show) (optima_func_r1_all OF rts as1 as2 fs k kl) ++ [[]] ++
+       map (map F_show) (r1_trace rts as1 as2 0 fs [([], 1%float)] k kl)).
 Definition dummyorth : nat -> list (core float) -> nat -> list (core float) * Z := fun _ _ _ => ([], 0%Z).
 '''
 
@@ -420,6 +439,8 @@ def correspondence(R, ctx):
     Fc = _func_cases(tn, rng, ctx['thorough'])
     bad += _check_func(R, 'optima_func_points', Fc, dict(cases=len(Fc), shapes=sorted({str(it['input']['ns']) for it in Fc}),
                                                           constant_poly=sum(1 for it in Fc if 1 in it['input']['ns'])))
+    Fr = _func_r1_cases(tn, rng, ctx['thorough'])
+    bad += _check_func_r1(R, 'optima_func_rank1', Fr, dict(cases=len(Fr), shapes=sorted({str(it['input']['ns']) for it in Fr})))
     return bad
 
 
@@ -633,12 +654,21 @@ class RecFunc:
     def __init__(self, tn):
         import sys
         self.M = sys.modules['teneva.optima_func']
+        self.tn = tn
 
     def __enter__(self):
         M = self.M
-        self.steps = []
+        self.steps, self.orth = [], []
+        self._orth = self.tn.orthogonalize
         self._step, self._fpm, self._roots, self._sort = M._step_top_k, M._find_poly_max, np.polynomial.polynomial.polyroots, np.argsort
         rec = self
+
+        def orth(Y, *a, **kw):
+            out = rec._orth(Y, *a, **kw)
+            if isinstance(out, list):
+                rec.orth.append(copy_tt(out))
+            return out
+        self.tn.orthogonalize = orth
 
         def step(*a, **kw):
             rec.steps.append(dict(cands=[], sort2=None, y=None))
@@ -673,6 +703,7 @@ class RecFunc:
     def __exit__(self, *a):
         M = self.M
         M._step_top_k, M._find_poly_max, np.polynomial.polynomial.polyroots, np.argsort = self._step, self._fpm, self._roots, self._sort
+        self.tn.orthogonalize = self._orth
         np.seterr(**self._e)
         self._w.__exit__(*a)
         return False
@@ -746,6 +777,80 @@ def _check_func(R, name, items, distribution):
     R.corr.append(dict(name=name, cases=len(items), mismatches=len(bad),
                        comparison='returned points exact (polyroots, argsort and the squared partial interpolants replayed); '
                                   'candidate values handed to argsort 1e-9',
+                       distribution=distribution, first_mismatches=bad[:3]))
+    if items:
+        R.samples.append(dict(stream=name, input=items[0]['input'], model=items[0].get('model'), impl=items[0].get('X')))
+    return bad
+
+
+def _func_r1_cases(tn, rng, thorough):
+    """rank-1 coefficient tensors: the fully modelled path func_step_r1.  The factor f_s handed to the model is cheb2poly of
+    the orthogonalised core with the sqrt(2) scaling of the first coefficient undone; polyroots and both argsorts are replayed."""
+    items = []
+    shapes = [[1, 3], [3, 1], [2, 2], [3, 3], [2, 3, 2], [4, 1, 3], [3, 4]]
+    for _ in range(24 if thorough else 7):
+        shapes.append([rng.randint(1, 5) for _ in range(rng.randint(2, 4))])
+    for ns in shapes:
+        A = rand_tt(rng, ns, [1] * (len(ns) + 1), 'float')
+        d = len(ns)
+        for k, k_loc in [(1, None), (2, 1), (3, None), (5, 2)]:
+            inp = dict(stream='R1', ns=ns, k=k, k_loc=k_loc, A=[G.tolist() for G in A], func=True)
+            try:
+                with RecFunc(tn) as rec:
+                    X = np.asarray(tn.optima_func_tt_beam(copy_tt(A), k, k_loc, ret_all=True), dtype=float)
+            except Exception as e:  # noqa
+                items.append(dict(coq='(([] : list (list nat)), ([] : list (list (Z * Z))))', broken='implementation raised ' + repr(e)[:200], input=inp))
+                continue
+            Z = rec.orth[0]
+            fs = []
+            for G in Z:
+                c = np.array(G[0, :, 0], dtype=float)
+                c[0] /= 2 ** 0.5
+                fs.append([float(x) for x in np.polynomial.chebyshev.cheb2poly(c)])
+            steps = rec.steps[:d]
+            rts = '[' + '; '.join('[' + '; '.join(Fl(c['roots'] or []) for c in st['cands']) + ']' for st in steps) + ']'
+            s1 = '[' + '; '.join(NNl([c['sort1'] or [] for c in st['cands']]) for st in steps) + ']'
+            s2 = NNl([st['sort2'] or [] for st in steps])
+            coq = (f'(let rts := (fun s i (_ : list float) => nth i (nth s {rts} []) []) in '
+                   f'let as1 := (fun s i (_ : list float) => nth i (nth s {s1} []) []) in '
+                   f'let as2 := (fun s (_ : list float) => nth s {s2} []) in '
+                   f'showR1 rts as1 as2 [{"; ".join(Fl(f) for f in fs)}] {k} {k if k_loc is None else k_loc})')
+            items.append(dict(coq=coq, X=X.tolist(), polys=[c['p'] for st in steps for c in st['cands']], input=inp))
+    return items
+
+
+def _check_func_r1(R, name, items, distribution):
+    vals = C.run_cases(f'C15_{name}', HEADER, [it['coq'] for it in items], chunk=12)
+    bad = []
+    for it, (_, rows) in zip(items, vals):
+        R.add_distinct((name, it['input']))
+        why = None
+        if 'broken' in it:
+            why = it['broken']
+        else:
+            cut = rows.index([]) if [] in rows else len(rows)
+            Xm = [[C.float_of_show(p) for p in r] for r in rows[:cut]]
+            tr = [[C.float_of_show(p) for p in r] for r in rows[cut + 1:]]
+            if Xm != it['X']:
+                why = 'returned points differ'
+            elif len(tr) != len(it['polys']):
+                why = 'number of _find_poly_max calls differs'
+            else:
+                # numpy trims trailing zero coefficients (a partial interpolant that vanishes gives [0.0]) and the scalar g of the
+                # model carries its own rounding: pad with zeros, tolerance relative to the largest coefficient of the run
+                sc = max([abs(x) for ip in it['polys'] for x in ip] + [1e-300])
+                for mp, ip in zip(tr, it['polys']):
+                    m = max(len(mp), len(ip))
+                    mp, ip = mp + [0.0] * (m - len(mp)), ip + [0.0] * (m - len(ip))
+                    if not all(abs(a - b) <= 1e-9 * sc for a, b in zip(mp, ip)):
+                        why = 'squared partial interpolant (g f_s)^2 differs from the polynomial handed to _find_poly_max'
+                        break
+            it['model'] = Xm
+        if why:
+            bad.append(dict(stream=name, why=why, input=it['input'], model=it.get('model'), impl=it.get('X')))
+    R.corr.append(dict(name=name, cases=len(items), mismatches=len(bad),
+                       comparison='returned points exact (polyroots and argsort replayed); polynomials (g f_s)^2 of the model vs the '
+                                  'coefficient lists handed to _find_poly_max 1e-9',
                        distribution=distribution, first_mismatches=bad[:3]))
     if items:
         R.samples.append(dict(stream=name, input=items[0]['input'], model=items[0].get('model'), impl=items[0].get('X')))
